@@ -139,7 +139,7 @@ def main():
         _, v = new_viol[0]
         path = common.write_replay(prop_id, seed, "violation", {
             "property": prop_id, "verdict": f"violates {prop_id}: {v.get('why')}", "seed": seed, "tier": tier,
-            "case": v, "all_new_violations": [x for _, x in new_viol][:20],
+            "case": v, "all_new_violations": [{k: x[k] for k in x if k != "case"} for _, x in new_viol][:200],
             "proof_obligations_broken": undischarged, "tie_disagreements": res.disagreements[:5]})
         lines.append(f"VIOLATION property={prop_id} replay={path}")
         exit_code = 1
